@@ -18,6 +18,7 @@ for f in glob.glob(V + "/.work/seed_confirm*.txt"):
     for line in open(f):
         p = line.split(None, 1)
         if len(p) == 2 and "clean=" in p[1]: conf[p[0]] = p[1].strip()
+thor = json.load(open(V + "/engine/seed_thorough.json")) if os.path.exists(V + "/engine/seed_thorough.json") else {}
 stored = 0
 for mid in sorted(evals):
     src = "/tmp/mut_out/" + mid
@@ -35,6 +36,8 @@ for mid in sorted(evals):
                                ran=["git apply patch.diff in a scratch worktree of /repo HEAD; cmake --build; ctest -E regress (68 tests)",
                                     "cc demo.c against the worktree's libevent.a, with and without the patch",
                                     "VERIF_REPO=<worktree> ./check %s --tier quick" % pid]),
-                caught=bool(e["failed"]), caught_by=sorted(set(e["failed"])), check_summary=e["summary"])
+                caught=bool(e["failed"]) or bool(re.search(r"violations=[1-9]", e["summary"])),
+                caught_by=sorted(set(e["failed"])) or (["(an obligation guarding a repaired finding reported VIOLATION)"] if re.search(r"violations=[1-9]", e["summary"]) else []),
+                check_summary=e["summary"], caught_by_thorough=thor.get(mid, []))
     json.dump(meta, open(dst + "/meta.json", "w"), indent=1); stored += 1
 print("stored", stored)
